@@ -230,7 +230,92 @@ theorem C12_invoked_in_order (hs : SortSpec part sort)
        g.runs = sortOrdered sort part runners) :=
   start_in_order hs loadRes isInst instRes before after runFails loaders procs runners
 
+/-! ### early references: GetEarlyBeanReference walks the same sorted sequence -/
+
+/-- The loop of GetEarlyBeanReference still ranges over the sorted `componentPostProcessors` (the slice the
+    registration loop appends to, `C12_loop_skeletons`), with the smart-processor assertion inside the loop
+    (regenerated from /repo's source on every run). -/
+theorem C12_early_ref_skeleton :
+    Facts.earlyRefLoopFact =
+      ("f.componentPostProcessors",
+       [.branch [.loop [.branch [.call "GetEarlyBeanReference", .branch [.call "return"]]]], .call "return"]) ∧
+    Facts.processorLoops.all (fun t => t.2.1 == Facts.earlyRefLoopFact.1) = true := ⟨rfl, by decide⟩
+
+/-- One early-reference request: the smart processors receive `GetEarlyBeanReference` in processor order, each at
+    most once — a prefix ending at the first failing callback, and ALL of them exactly once when no callback fails
+    (the registration flag is set as soon as one processor is InstantiationAware, which every smart one is). -/
+theorem C12_early_refs_in_order {β : Type} (hasInst : Bool) (isSmart : α → Bool) (get : α → β → Option β)
+    (procs : List α) (m : β) :
+    (getEarlyBeanReference hasInst isSmart get procs m).1 <+: procs.filter isSmart ∧
+    ((hasInst = true ∨ procs.filter isSmart = []) → (∀ p b, (get p b).isSome = true) →
+      (getEarlyBeanReference hasInst isSmart get procs m).1 = procs.filter isSmart ∧
+      (getEarlyBeanReference hasInst isSmart get procs m).2.isSome = true) :=
+  getEarlyBeanReference_in_order hasInst isSmart get procs m
+
+/-- A whole start whose probe is in a circular reference: the early-reference callbacks are a prefix of the SORTED
+    smart processors (priority-ordered, ordered, unordered; Orders non-decreasing: `C12_contract`), whatever the
+    registration order; when nothing stops they are all of them and the rest of the start is as in
+    `C12_invoked_in_order`. -/
+theorem C12_early_invoked_in_order (hs : SortSpec part sort)
+    (loadRes : α → Step) (isInst : α → Bool) (instRes : α → Step)
+    (before after : α → Unit → Res Unit) (runFails : α → Bool)
+    (builtinInst : Bool) (isSmart : α → Bool) (get : α → Unit → Option Unit) (loaders procs runners : List α) :
+    let g := startC sort part loadRes (fun x => some x) isInst instRes before after runFails builtinInst isSmart get
+      loaders procs runners
+    let s := start sort part loadRes (fun x => some x) isInst instRes before after runFails loaders procs runners
+    g.early <+: (sortOrdered sort part procs).filter isSmart ∧
+    ((∀ x, isSmart x = true → isInst x = true) →
+     (∀ x, (loadRes x).stops = false) → (∀ x, (instRes x).stops = false) → (∀ p b, (get p b).isSome = true) →
+       g = { s with early := (sortOrdered sort part procs).filter isSmart }) :=
+  startC_in_order hs loadRes isInst instRes before after runFails builtinInst isSmart get loaders procs runners
+
+/-- …and a sublist of a contract-ordered sequence is contract-ordered: the callbacks of the smart processors obey
+    the contract among themselves. -/
+theorem C12_early_contract (hs : SortSpec part sort) (isSmart : α → Bool) (procs : List α) :
+    ((sortOrdered sort part procs).filter isSmart).Pairwise (Precedes part) ∧
+    ((sortOrdered sort part procs).filter isSmart).Perm (procs.filter isSmart) :=
+  ⟨(sortOrdered_pairwise hs procs).filter _, (sortOrdered_perm hs procs).filter _⟩
+
+/-! ### every Initialize of a Configure, whatever was called on it before -/
+
+/-- The entry points of `configure` have the shape the model mirrors: Initialize guards and calls loadConfigure,
+    AddLoaders appends, SetLoaders replaces, and the only other write to the loader slice is the sorted slice in
+    loadConfigure (regenerated from /repo's source on every run). -/
+theorem C12_configure_entry_points :
+    Facts.confInitializeSkel = [.branch [.call "return"], .call "loadConfigure", .branch [.call "return"], .call "return"] ∧
+    Facts.confAddLoadersSkel = [.call "append c.loaders loaders"] ∧
+    Facts.confLoaderWrites =
+      [("AddLoaders", "append c.loaders loaders"), ("SetLoaders", "loaders"),
+       ("loadConfigure", "framework_helper.SortOrderedComponents c.loaders")] := ⟨rfl, rfl, by decide⟩
+
+/-- For EVERY sequence of SetLoaders / AddLoaders / Initialize calls on a fresh Configure, every Initialize calls
+    `LoadConfig` along a sequence `s` that contains each loader registered at that moment exactly once, obeys the
+    contract, keeps the unordered loaders in registration order, and is walked front to back up to the first loader at
+    which loadConfigure returns; `SetConfig` follows each LoadConfig that produced data; an error is reported iff a
+    registered loader stops.  (No dependence on earlier Initialize calls or on the number of loaders.) -/
+theorem C12_loaders_every_initialize (hs : SortSpec part sort) (res : α → Step) (ops : List (ConfOp α)) :
+    Forall2 (InitSpec part res) (confRun sort part res ops []) (confRegistered ops []) :=
+  confRun_spec hs res ops [] [] (List.Perm.refl _) rfl
+
 /-! ### non-vacuity -/
+
+/-- smart processors registered against the contract order (unordered, ordered, priority-ordered) are called
+    priority-ordered first; the hypotheses of `C12_early_invoked_in_order` hold -/
+example :
+    let g := startC (fun lt l => isort lt l) Participant.part (fun _ => .skip) (fun x => some x)
+      (fun p => p.id != 3) (fun _ => .skip) (fun _ _ => .val ()) (fun _ _ => .val ()) (fun _ => false)
+      true (fun p => p.id < 3) (fun _ _ => some ())
+      [] [⟨.plain, 0⟩, ⟨.ord 5, 1⟩, ⟨.prio 70, 2⟩, ⟨.ord (-1), 3⟩] []
+    g.err = false ∧ g.early.map (·.id) = [2, 1, 0] ∧ g.before.map (·.id) = [2, 3, 1, 0] := by decide
+
+/-- Initialize / SetLoaders with as many loaders, registered out of order / Initialize / AddLoaders / Initialize -/
+example :
+    (confRun (fun lt l => isort lt l) Participant.part (fun _ => Step.skip)
+        [.set [⟨.plain, 0⟩, ⟨.ord 5, 1⟩, ⟨.prio 9, 2⟩], .init,
+         .set [⟨.plain, 3⟩, ⟨.ord 7, 4⟩, ⟨.prio 3, 5⟩], .init, .add [⟨.prio 1, 6⟩, ⟨.plain, 7⟩], .init] []).map
+        (fun r => ((firsts r.1).map (·.id), r.2))
+      = [([2, 1, 0], false), ([5, 4, 3], false), ([6, 5, 4, 3, 7], false)] := by decide
+
 
 /-- the specification is met by the driver's insertion sort, by core's merge sort, and by a sorter with the
     opposite tie order — so the hypotheses of the theorems above are satisfiable, by different algorithms -/
